@@ -731,9 +731,9 @@ func locktable(exemptPath, outV, outJSON string) {
 
 // plain (receiver-less) functions whose skeletons are generated too, and plain calls that are recorded although they carry no selector
 var plainFuncs = map[string]*ast.FuncDecl{}
-var syncPlain = []string{"OpenStore", "translateIndex", "finishIndexTranslation", "remapIndex"}
+var syncPlain = []string{"OpenStore", "translateIndex", "finishIndexTranslation", "remapIndex", "processFreeList"}
 var namedPlainCalls = map[string]bool{"finishIndexTranslation": true, "writeTranslationJournal": true, "translateIndex": true, "copyFile": true,
-	"writeHeader": true, "remapIndex": true, "upgradeIndex": true}
+	"writeHeader": true, "remapIndex": true, "upgradeIndex": true, "deleteRecords": true}
 
 var syncFuncs = []string{"Store.Flush", "Store.flushTick", "Store.commit", "Store.Close", "Store.run", "Store.Put", "Store.Remove", "Store.Get",
 	"Store.Has", "Store.GetSize", "primaryGC.reapRecords", "primaryGC.gc",
